@@ -4,7 +4,7 @@
 // for a dropped early return).
 //
 //   fault <class> <seed> <n> <m> <k> <sub> fz=<bits> me=<bits> pr=<bits> in=<bits> no=<bits> li=<bits>
-//     class: kf | ukfa | ukfg | sukf | glik | bootg | boots | gpf-<kf|ukfa|ukfg|sukf>-<g|s>
+//     class: kf | ukfa | ukfg | ukfgo (generic, update_weights_online) | sukf | glik | bootg | boots | gpf-<kf|ukfa|ukfg|sukf>-<g|s>
 //     bits : string of 0/1 consumed call by call ('-' = empty; exhausted = valid)
 //     sub  : SUKF measurement_sub_size (ignored by the other classes)
 //     optional trailing token reps=<r>: r successive correct() calls on the same object (fresh belief each
@@ -12,6 +12,9 @@
 //     or ep=<e0>/<e1>/...: one correct() call per epoch on the same object; during epoch i the methods named in
 //     e_i (e.g. `no`, `mepr`, `-` = none) answer "unavailable" however often -- or whether at all -- they are asked
 //     (sis-*: one epoch per filtering step; <steps> must equal the number of epochs)
+//     optional token degen=1 (belief with -inf / 0 weights, a zero covariance, duplicated components);
+//     optional tokens deco=1 (models wrapped in a forwarding decorator), move=1 (correction handed over by move
+//     construction), massign=1 (bootstrap / gpf: by move assignment);
 //     optional token alias=1: in-place calls correct(b, b) (the signature allows it); labels then compare b after the
 //     call with a copy taken before it (twins are called in place too); last field is `alias`
 //   -> r0:<label>:<calls>:<same|modified|alias> r1:...
@@ -42,6 +45,7 @@
 #include <BayesFilters/SIS.h>
 #include <BayesFilters/utils.h>
 #include <memory>
+#include <limits>
 
 using namespace bfl;
 using namespace Eigen;
@@ -129,6 +133,27 @@ struct SModel : public LinearMeasurementModel {
     MatrixXd H_, R_; VectorXd y_; std::shared_ptr<Script> s_;
 };
 
+// Forwarding wrapper in the manner of src/MeasurementModelDecorator.cpp (which is not part of the build and whose
+// header does not compile: `getOutputSize() const override` overrides nothing): every call, including the
+// descriptions the unscented corrections need, goes to the wrapped model through the base-class interface.
+struct HDeco : public LinearMeasurementModel {
+    explicit HDeco(std::unique_ptr<LinearMeasurementModel> m) : m_(std::move(m)) {}
+    bool freeze(const Data& d) override { return m_->freeze(d); }
+    std::pair<bool, Data> measure(const Data& d) const override { return m_->measure(d); }
+    std::pair<bool, Data> predictedMeasure(const Ref<const MatrixXd>& c) const override { return m_->predictedMeasure(c); }
+    std::pair<bool, Data> innovation(const Data& p, const Data& y) const override { return m_->innovation(p, y); }
+    std::pair<bool, MatrixXd> getNoiseCovarianceMatrix() const override { return m_->getNoiseCovarianceMatrix(); }
+    MatrixXd getMeasurementMatrix() const override { return m_->getMeasurementMatrix(); }
+    VectorDescription getInputDescription() const override { return m_->getInputDescription(); }
+    VectorDescription getMeasurementDescription() const override { return m_->getMeasurementDescription(); }
+    std::unique_ptr<LinearMeasurementModel> m_;
+};
+
+static bool g_degen = false;     // degenerate belief: -inf and 0 weights, a singular (zero) covariance, duplicated components
+static bool g_deco = false;      // wrap every scripted model in the forwarding decorator
+static bool g_move = false;      // hand the correction over by move construction before using it
+static bool g_massign = false;   // (bootstrap, gpf) hand over by move assignment into an object built around all-valid models
+
 // A user likelihood model that signals availability itself.
 struct SLik : public LikelihoodModel {
     SLik(const Data12& d, std::shared_ptr<Script> s) : H_(d.H), y_(d.y), s_(s) {}
@@ -167,6 +192,11 @@ static void fillGM(GaussianMixture& b, Rng& r) {
         b.covariance(c) = P;
         b.weight(c) = -r.pos(0.1, 3.0);
     }
+    if (g_degen) {
+        b.weight(0) = -std::numeric_limits<double>::infinity();
+        if (k > 1) { b.weight(k - 1) = 0.0; b.mean(k - 1) = b.mean(0); b.covariance(k - 1) = b.covariance(0); }   // exact duplicate of component 0
+        if (k > 2) b.covariance(1).setZero();                                                                  // singular
+    }
 }
 static void fillPS(ParticleSet& b, Rng& r) {
     fillGM(b, r);
@@ -192,11 +222,30 @@ static std::string pick(const std::vector<std::pair<std::string, bool>>& hits) {
 // ---------------------------------------------------------------- builders
 static const double UA = 1.0, UB = 2.0, UK = 0.0;
 
+static std::unique_ptr<LinearMeasurementModel> mkModel(const Data12& d, std::shared_ptr<Script> s) {
+    std::unique_ptr<LinearMeasurementModel> m(new SModel(d, s));
+    if (g_deco) m.reset(new HDeco(std::move(m)));
+    return m;
+}
+
 static std::unique_ptr<GaussianCorrection> mkGauss(const std::string& kind, const Data12& d, std::shared_ptr<Script> s, long sub) {
-    if (kind == "kf") return std::unique_ptr<GaussianCorrection>(new KFCorrection(std::unique_ptr<LinearMeasurementModel>(new SModel(d, s))));
-    if (kind == "ukfa") return std::unique_ptr<GaussianCorrection>(new UKFCorrection(std::unique_ptr<AdditiveMeasurementModel>(new SModel(d, s)), UA, UB, UK));
-    if (kind == "ukfg") return std::unique_ptr<GaussianCorrection>(new UKFCorrection(std::unique_ptr<MeasurementModel>(new SModel(d, s)), UA, UB, UK));
-    if (kind == "sukf") return std::unique_ptr<GaussianCorrection>(new SUKFCorrection(std::unique_ptr<AdditiveMeasurementModel>(new SModel(d, s)), UA, UB, UK, (size_t)sub, false));
+    if (kind == "kf") {
+        std::unique_ptr<KFCorrection> c(new KFCorrection(mkModel(d, s)));
+        if (g_move) c.reset(new KFCorrection(std::move(*c)));
+        return std::unique_ptr<GaussianCorrection>(std::move(c));
+    }
+    if (kind == "ukfa" || kind == "ukfg" || kind == "ukfgo") {
+        std::unique_ptr<UKFCorrection> c;
+        if (kind == "ukfa") c.reset(new UKFCorrection(std::unique_ptr<AdditiveMeasurementModel>(mkModel(d, s)), UA, UB, UK));
+        else c.reset(new UKFCorrection(std::unique_ptr<MeasurementModel>(mkModel(d, s)), UA, UB, UK, kind == "ukfgo"));   // ukfgo: update_weights_online
+        if (g_move) c.reset(new UKFCorrection(std::move(*c)));
+        return std::unique_ptr<GaussianCorrection>(std::move(c));
+    }
+    if (kind == "sukf") {
+        std::unique_ptr<SUKFCorrection> c(new SUKFCorrection(std::unique_ptr<AdditiveMeasurementModel>(mkModel(d, s)), UA, UB, UK, (size_t)sub, false));
+        if (g_move) c.reset(new SUKFCorrection(std::move(*c)));
+        return std::unique_ptr<GaussianCorrection>(std::move(c));
+    }
     throw vh::BadArgs("gauss:" + kind);
 }
 static std::unique_ptr<LikelihoodModel> mkLik(char kind, const Data12& d, std::shared_ptr<Script> s) {
@@ -210,7 +259,10 @@ static std::unique_ptr<StateModel> mkState(const Data12& d) { return std::unique
 static std::string gauss_case(const std::string& cls, uint64_t seed, const Data12& d, long sub, std::shared_ptr<Script> s, long reps, bool alias) {
     long n = d.n, k = d.k;
     std::shared_ptr<Script> ok(new Script());
-    std::unique_ptr<GaussianCorrection> c = mkGauss(cls, d, s, sub), twin = mkGauss(cls, d, ok, sub);
+    std::unique_ptr<GaussianCorrection> c = mkGauss(cls, d, s, sub);
+    bool gm = g_move, gd = g_deco; g_move = false; g_deco = false;      // the twin is a plain object
+    std::unique_ptr<GaussianCorrection> twin = mkGauss(cls, d, ok, sub);
+    g_move = gm; g_deco = gd;
     Rng r(seed ^ 0x55aa);
     Out o;
     for (long rep = 0; rep < reps; ++rep) {
@@ -239,7 +291,7 @@ static std::string gauss_case(const std::string& cls, uint64_t seed, const Data1
 
 static std::string glik_case(uint64_t seed, const Data12& d, std::shared_ptr<Script> s, long reps) {
     std::shared_ptr<Script> ok(new Script());
-    SModel mm(d, s), mmok(d, ok);
+    std::unique_ptr<LinearMeasurementModel> mmp = mkModel(d, s); MeasurementModel& mm = *mmp; SModel mmok(d, ok);
     GaussianLikelihood gl, gl2;
     LikelihoodModel& l = gl; LikelihoodModel& l2 = gl2;
     Rng r(seed ^ 0x55aa);
@@ -263,15 +315,31 @@ static std::string part_case(const std::string& cls, uint64_t seed, const Data12
     std::unique_ptr<PFCorrection> c, twin, twin_partial;
     if (cls == "bootg" || cls == "boots") {
         char lk = cls[4];
-        c.reset(new BootstrapCorrection(std::unique_ptr<MeasurementModel>(new SModel(d, s)), mkLik(lk, d, s)));
+        std::unique_ptr<BootstrapCorrection> b(new BootstrapCorrection(std::unique_ptr<MeasurementModel>(mkModel(d, s)), mkLik(lk, d, s)));
+        if (g_move) b.reset(new BootstrapCorrection(std::move(*b)));
+        if (g_massign) {
+            std::shared_ptr<Script> other(new Script());
+            std::unique_ptr<BootstrapCorrection> a(new BootstrapCorrection(std::unique_ptr<MeasurementModel>(new SModel(d, other)), mkLik(lk, d, other)));
+            *a = std::move(*b); b = std::move(a);
+        }
+        c = std::move(b);
         twin.reset(new BootstrapCorrection(std::unique_ptr<MeasurementModel>(new SModel(d, ok)), mkLik(lk, d, ok)));
     } else if (cls.compare(0, 4, "gpf-") == 0) {
         size_t dash = cls.rfind('-'); if (dash == 3 || dash + 2 != cls.size()) throw vh::BadArgs("gpf:" + cls);
         std::string w = cls.substr(4, dash - 4); char lk = cls[dash + 1];
-        c.reset(new GPFCorrection(mkLik(lk, d, s), mkGauss(w, d, s, sub), mkState(d), (unsigned)seed));
+        std::unique_ptr<GPFCorrection> g(new GPFCorrection(mkLik(lk, d, s), mkGauss(w, d, s, sub), mkState(d), (unsigned)seed));
+        if (g_move) g.reset(new GPFCorrection(std::move(*g)));
+        if (g_massign) {
+            std::shared_ptr<Script> other(new Script());
+            std::unique_ptr<GPFCorrection> a(new GPFCorrection(mkLik(lk, d, other), mkGauss(w, d, other, sub), mkState(d), (unsigned)seed + 17u));
+            *a = std::move(*g); g = std::move(a);
+        }
+        c = std::move(g);
+        bool gm = g_move, gd = g_deco; g_move = false; g_deco = false;      // twins are plain objects
         twin.reset(new GPFCorrection(mkLik(lk, d, ok), mkGauss(w, d, ok, sub), mkState(d), (unsigned)seed));
         std::unique_ptr<GaussianCorrection> off = mkGauss(w, d, ok2, sub); off->skip(true);
         twin_partial.reset(new GPFCorrection(mkLik(lk, d, ok2), std::move(off), mkState(d), (unsigned)seed));
+        g_move = gm; g_deco = gd;
     } else throw vh::BadArgs("class:" + cls);
     Rng r(seed ^ 0x55aa);
     Out o;
@@ -361,10 +429,14 @@ static std::string fault_case(Toks& t) {
     std::string cls = t.tok(); uint64_t seed = (uint64_t)t.nat(); long n = t.nat(), m = t.nat(), k = t.nat(), sub = t.nat();
     if (n < 1 || n > 6 || m < 1 || m > 6 || k < 1 || k > 8 || sub < 1 || sub > 8) throw vh::BadArgs("size");
     std::shared_ptr<Script> s(new Script()); parse_scripts(t, *s);
-    long reps = 1; bool alias = false;
+    long reps = 1; bool alias = false; g_deco = g_move = g_massign = g_degen = false;
     while (!t.empty()) {
         std::string rt = t.tok();
         if (rt == "alias=1") alias = true;
+        else if (rt == "deco=1") g_deco = true;
+        else if (rt == "degen=1") g_degen = true;
+        else if (rt == "move=1") g_move = true;
+        else if (rt == "massign=1") g_massign = true;
         else if (rt == "alias=0") alias = false;
         else if (rt.compare(0, 5, "reps=") == 0) reps = std::atol(rt.c_str() + 5);
         else if (rt.compare(0, 3, "ep=") == 0) {
@@ -387,7 +459,7 @@ static std::string fault_case(Toks& t) {
     if (reps < 1 || reps > 8) throw vh::BadArgs("reps");
     Data12 d(seed, n, m, k);
     g_step = 0;
-    if (cls == "kf" || cls == "ukfa" || cls == "ukfg" || cls == "sukf") return gauss_case(cls, seed, d, sub, s, reps, alias);
+    if (cls == "kf" || cls == "ukfa" || cls == "ukfg" || cls == "ukfgo" || cls == "sukf") return gauss_case(cls, seed, d, sub, s, reps, alias);
     if (cls == "glik") return glik_case(seed, d, s, reps);
     if (cls.compare(0, 4, "sis-") == 0) return sis_case(cls, seed, d, sub, s);
     return part_case(cls, seed, d, sub, s, reps, alias);
